@@ -19,6 +19,9 @@ EXPLANATION = (
     'loop returned and inside the with-block of the output; C16.6 producers run on the calling thread only. '
     'The ordering facts are must-facts of a path-sensitive walk of each function (they hold on every path), so they '
     'hold for every schedule: they are program order inside each thread.')
+EXPLANATION += (
+    " ADDED: C16.2 / C16.3 also require the consumer's get to block without a time-out. A producer started as a Thread target is located and reported (C16.6). C16.7 ownership: every object put on the first queue is bound, inside the same group iteration, to a fresh allocation (np.zeros / np.pad / .copy()), never to a pooled or outer-scope buffer - otherwise some interleaving lets the producer overwrite a plane set that is still being compressed."
+)
 ASSUMPTIONS = [
     'queue.Queue is FIFO and join() returns only after task_done() was called once per put item',
     'the consumer bodies do not raise (a raising compress_numpy would leave join waiting) - outside the statement',
